@@ -209,6 +209,86 @@ func runThorough(rep *Report, prop *Property, o RunOpts) {
 	rep.Extra["mutants_applied"] = applied
 	rep.Extra["mutants_detected"] = detected
 	rep.Extra["mutants_skipped"] = skipped
+	// (iv) behaviour-preserving refactorings (written by independent agents told to change nothing
+	// observable, plus a few of our own) that touch one of this property's anchor files must leave
+	// every verdict silent: no violation, nothing undecided.
+	anchors := anchorFiles(o.Verif, prop.ID)
+	type refRes struct {
+		ID      string `json:"id"`
+		Applied bool   `json:"applied"`
+		Silent  bool   `json:"silent"`
+		Note    string `json:"note,omitempty"`
+	}
+	var refs []refRes
+	rdirs, _ := filepath.Glob(filepath.Join(o.Verif, "refactors", "*"))
+	sort.Strings(rdirs)
+	nRef, nSilent := 0, 0
+	for _, d := range rdirs {
+		pb, err := os.ReadFile(filepath.Join(d, "patch.diff"))
+		if err != nil {
+			continue
+		}
+		touches := false
+		for _, l := range strings.Split(string(pb), "\n") {
+			if strings.HasPrefix(l, "+++ b/") && anchors[strings.TrimPrefix(l, "+++ b/")] {
+				touches = true
+			}
+		}
+		if !touches {
+			continue
+		}
+		rr := refRes{ID: filepath.Base(d)}
+		ov, err := overlayFromPatch(o.Repo, string(pb))
+		if err != nil {
+			rr.Note = "patch does not apply to the current tree: " + err.Error()
+			refs = append(refs, rr)
+			continue
+		}
+		rr.Applied = true
+		nRef++
+		vs, err := runRulesOn(prop, o, nil, ov, 0)
+		switch {
+		case err != nil:
+			rr.Note = "could not be analysed: " + err.Error()
+			rep.Broken("refactoring " + rr.ID + ": " + err.Error())
+		case len(vs.viol) > 0:
+			rr.Note = fmt.Sprintf("FALSE ALARM: %s %s %s", vs.viol[0].Rule, vs.viol[0].Function, vs.viol[0].Construct)
+			rep.Broken("behaviour-preserving refactoring " + rr.ID + " is reported as a violation (false alarm): " + vs.viol[0].Rule + " " + vs.viol[0].Function + ": " + vs.viol[0].Construct)
+		case len(vs.broken) > 0:
+			rr.Note = "undecided: " + vs.broken[0]
+			rep.Broken("behaviour-preserving refactoring " + rr.ID + " leaves a rule undecided: " + vs.broken[0])
+		default:
+			rr.Silent = true
+			nSilent++
+		}
+		refs = append(refs, rr)
+	}
+	rep.Extra["refactorings"] = refs
+	rep.Extra["refactorings_applied"] = nRef
+	rep.Extra["refactorings_silent"] = nSilent
+}
+
+// anchorFiles: the files named in the property's anchors (properties.jsonl).
+func anchorFiles(verif, id string) map[string]bool {
+	out := map[string]bool{}
+	b, err := os.ReadFile(filepath.Join(verif, "properties.jsonl"))
+	if err != nil {
+		return out
+	}
+	for _, line := range strings.Split(string(b), "\n") {
+		var p struct {
+			ID      string `json:"id"`
+			Anchors struct {
+				Files []string `json:"files"`
+			} `json:"anchors"`
+		}
+		if json.Unmarshal([]byte(line), &p) == nil && p.ID == id {
+			for _, f := range p.Anchors.Files {
+				out[f] = true
+			}
+		}
+	}
+	return out
 }
 
 func firstN(s []string, n int) []string {
